@@ -71,6 +71,10 @@ def dx_case(draw, big=False):
         trailing_space=draw(st.booleans()),
         atoms=[list(a) for a in atoms], cli=draw(st.integers(0, 7)) == 0,
         whitespace_pqr=draw(st.booleans()),
+        # other lines of a PQR file: header REMARKs, TER between groups, an END in the middle (files put
+        # together with `cat protein.pqr ions.pqr`)
+        pqr_extra=draw(st.lists(st.tuples(st.integers(0, 50), st.sampled_from(["REMARK   1 PQR file", "TER", "END", "END", "HEADER    X"])),
+                                min_size=0, max_size=2).map(lambda x: [list(t) for t in x])),
         # non-finite grid values (APBS writes nan / inf where the potential is undefined): value tokens
         nonfinite=[[draw(st.integers(0, 10**6)), draw(st.sampled_from(["nan", "inf", "-inf", "NaN", "Infinity", "-nan"]))]
                    for _ in range(draw(st.sampled_from([0, 0, 0, 1, 3])))],
@@ -118,7 +122,23 @@ def pqr_text(case):
             out.append(
                 "ATOM  %5d  CA  ALA  %4d    %8.3f%8.3f%8.3f %7.4f %6.4f" % (i + 1, i + 1, x, y, z, q, r)
             )
+    for pos, text in sorted(case.get("pqr_extra", []), reverse=True):
+        out.insert(pos % (len(out) + 1), text)
     return "\n".join(out + ["TER", "END"]) + "\n"
+
+
+def shape_cases():
+    """EXHAUSTIVE: every grid shape with nx, ny, nz in {1, 2, 3, 4, 6, 7, 8, 12, 16, 24, 32} (products that are
+    / are not multiples of 6, 1024, 4096, 6144 ...), values = running index, two PQR atoms."""
+    dims = [1, 2, 3, 4, 6, 7, 8, 12, 16, 24, 32]
+    out = []
+    for nx in dims:
+        for ny in dims:
+            for nz in dims:
+                out.append(dict(part="shapes", dims=[nx, ny, nz], origin=[-1.5, 2.25, 0.0], delta=[0.5, 0.25, 1.0], per_line=3,
+                                header=False, trailer=(nx + ny + nz) % 2 == 0, trailing_space=False,
+                                atoms=[[1.0, 2.0, 3.0, -0.5, 1.5], [4.5, 5.25, 6.125, 0.5, 1.2]], cli=False, whitespace_pqr=False))
+    return out
 
 
 def parse_cube(text):
@@ -181,9 +201,13 @@ def _close6(c, v):
 
 def check_dx(case):
     res = Result()
+    if "vals" not in case:  # (shape table: running index, not stored in the case)
+        case = dict(case, vals=[float(i % 1000) * 0.5 - 3.0 for i in range(case["dims"][0] * case["dims"][1] * case["dims"][2])])
     dx = dx_text(case)
     pqr = pqr_text(case)
     # what the DX text itself says (APBS prints %e): parse with plain float()
+    if "vals" not in case:  # (shape table: running index, not stored in the case)
+        case = dict(case, vals=[float(i % 1000) * 0.5 - 3.0 for i in range(case["dims"][0] * case["dims"][1] * case["dims"][2])])
     dxvals = [float("%e" % v) for v in case["vals"]]
     n = len(dxvals)
     for pos, tok in case.get("nonfinite", []):
@@ -243,6 +267,7 @@ def parts(tier):
     return [
         Part("dx", check_dx, strategy=dx_case(big=(tier == "thorough")),
              budget=dict(quick=3000, thorough=30000)),  # fmt: skip
+        Part("shapes", check_dx, cases=shape_cases, exhaustive=True),
     ]
 
 
